@@ -47,6 +47,8 @@ def deserialize_hml(ser: Slice, m: int) -> typing.Tuple[int, bitarray]:
         l = m.bit_length()
         n = ser.load_uint(l) if l else 0  # (#<= 0) is a zero-width field
         s = bitarray(str(v) * n)
+    if n > m:  # hashmap.tlb: {n <= m} in every HmLabel constructor
+        raise ValueError(f'dictionary label of {n} bits is longer than the remaining key ({m} bits)')
     return n, s
 
 
